@@ -1,17 +1,71 @@
 package bpmn
 
-// C01.e micro-programs: whole instances built by the real NewProcess from schema literals.
+// C01: token flow conforms to BPMN semantics - decided per engine step (see DESIGN.md section 4, C01).
 
-func verifAnswerAll(inst *verifInst) {
+// answers at most `max` task requests, in the order they were traced
+func verifAnswerUpTo(inst *verifInst, max int) {
 	go func() {
-		for {
+		for i := 0; i < max; i++ {
 			t := <-inst.tasks
 			t.Do()
 		}
 	}()
 }
 
-// start -> a -> end
+// C01.a/b: a token arrives at task `a` (real task node, harness, flow loop); the task is answered; `a` has n outgoing
+// sequence flows, each unconditional or conditional (solver's choice of the truth values).  BPMN: the task is requested
+// exactly once for the token, and the token continues on every unconditional flow and every conditional flow whose
+// condition is true.
+func verifC01Task(n int, conditional [3]bool) {
+	b := verifNewB("p")
+	outs := make([]string, 0, 3)
+	for i := 0; i < n; i++ {
+		outs = append(outs, verifFlowNames[i])
+	}
+	b.task("a", []string{"in"}, outs)
+	b.flow("in", "s", "a", false)
+	var c [3]bool
+	for i := 0; i < n; i++ {
+		b.flow(verifFlowNames[i], "a", verifTaskNames[i], conditional[i])
+		b.task(verifTaskNames[i], []string{verifFlowNames[i]}, nil)
+		c[i] = true
+		if conditional[i] {
+			c[i] = verifNondetBool("c")
+			b.cond(verifFlowNames[i], c[i])
+		}
+	}
+	inst := verifNewInst(b)
+	if inst.proc == nil {
+		return
+	}
+	var hits [3]int64
+	for i := 0; i < n; i++ {
+		inst.sinkAt(verifTaskNames[i], &hits[i])
+	}
+	verifAnswerUpTo(inst, 1) // a second request for the same token is observed, not answered
+	inst.tokenAt("a", "in")
+	verifQuiesce()
+	verifReach("quiescent")
+	verifAssert(inst.count("a") >= 1, "an enabled activity is never skipped")
+	verifAssert(inst.count("a") <= 1, "an activity is requested exactly once per token")
+	for i := 0; i < n; i++ {
+		if c[i] {
+			verifAssert(verifGet(&hits[i]) == 1, "the token continues on every outgoing flow that is unconditional or whose condition is true")
+		} else {
+			verifAssert(verifGet(&hits[i]) == 0, "the token does not continue on a flow whose condition is false")
+		}
+	}
+	verifAssert(inst.errs == 0, "no error trace for a successful answer")
+}
+
+func VerifC01_Task_U()  { verifC01Task(1, [3]bool{false, false, false}) }
+func VerifC01_Task_UU() { verifC01Task(2, [3]bool{false, false, false}) }
+func VerifC01_Task_C()  { verifC01Task(1, [3]bool{true, false, false}) }
+func VerifC01_Task_CC() { verifC01Task(2, [3]bool{true, true, false}) }
+func VerifC01_Task_UC() { verifC01Task(2, [3]bool{false, true, false}) }
+func VerifC01_Task_CU() { verifC01Task(2, [3]bool{true, false, false}) }
+
+// C01.e micro-program: whole instance start -> a -> end built by the real NewProcess and started by the real StartAll
 func VerifC01e_Seq() {
 	b := verifNewB("p")
 	b.start("s", "f1")
@@ -23,12 +77,12 @@ func VerifC01e_Seq() {
 	if inst.proc == nil {
 		return
 	}
-	verifAnswerAll(inst)
+	verifAnswerUpTo(inst, 2)
 	err := inst.proc.StartAll(inst.ctx)
 	verifAssert(err == nil, "StartAll succeeds")
 	verifQuiesce()
 	verifReach("quiescent")
-	verifAssert(inst.count("a") == 1, "task a requested exactly once")
-	verifAssert(inst.count("done:e") == 1, "end event reached exactly once")
+	verifAssert(inst.count("a") == 1, "an activity is requested exactly once per token")
+	verifAssert(inst.count("done:e") == 1, "the instance reaches exactly the end events the token game reaches")
 	verifAssert(inst.ceased == 1, "instance completed (cease-flow trace emitted once)")
 }
